@@ -34,7 +34,9 @@ fn hist_json(h: &Hist) -> Value {
 }
 
 fn run_history(h: &Hist, st: &mut Stats) -> Result<(), String> {
-    let mut s = Sender::new(h.api, Kind::Sized(h.n))?;
+    // every other history carries an explicit Host header as well (then the library has nothing to amend)
+    let kind = if h.ops.len() % 2 == 0 { Kind::Sized(h.n) } else { Kind::SizedAndHost(h.n) };
+    let mut s = Sender::new(h.api, kind)?;
     if s.is_chunked() == Some(true) {
         return Err("content-length body reported as chunked".into());
     }
